@@ -177,6 +177,13 @@ def run(check, prog):
     cscat_interpolation(check, prog)
     work_array_regions(check, prog)
     co_indexed(check, prog)
+    # the one-sphere cluster's four cross-section numbers against the single
+    # sphere's: each slot of raw_cross_sections is the quantity it is named for
+    # (rule shared with C03)
+    from . import c03 as _c03
+    from hpstatic.poly import Canon as _Canon
+    from hpstatic.xrnorm import atom_rewrite as _ar
+    _c03.multisphere(check, prog, _Canon(atom_rewrite=_ar))
     # a one-sphere cluster equals the single-sphere series only while the compiled
     # expansion can hold it (rule shared with C02)
     from . import c02 as _c02
